@@ -67,6 +67,23 @@ fn profile(name: &str) -> RawCfg {
             prefill_bytes: 100,
             ..base
         },
+        // four flushed regions with data; removals, flushes and compaction in every order
+        "prefilled4cw" => RawCfg {
+            names: 4,
+            sizes: vec![5000],
+            kinds: kinds(&["create", "write", "remove", "flush", "compact"]),
+            prefill: 4,
+            prefill_bytes: 100,
+            ..base
+        },
+        "prefilled4c" => RawCfg {
+            names: 4,
+            sizes: vec![],
+            kinds: kinds(&["remove", "flush", "compact"]),
+            prefill: 4,
+            prefill_bytes: 100,
+            ..base
+        },
         // positional writes and truncations
         "edit" => RawCfg {
             names: 2,
@@ -159,6 +176,7 @@ fn plan(property: &str, tier: &str) -> Vec<(&'static str, usize)> {
             if quick {
                 vec![
                     ("full", 3),
+                    ("prefilled4c", 8),
                     ("names", 4),
                     ("edit", 4),
                     ("alloc", 5),
@@ -184,7 +202,8 @@ fn plan(property: &str, tier: &str) -> Vec<(&'static str, usize)> {
                 vec![
                     ("holes4", 10),
                     ("holes4w", 6),
-                    ("prefilled4", 5),
+                    ("prefilled4c", 8),
+                    ("prefilled4", 4),
                     ("alloc", 5),
                     ("alloc_minlen_page", 5),
                     ("alloc_minlen_big", 5),
@@ -220,9 +239,9 @@ fn plan(property: &str, tier: &str) -> Vec<(&'static str, usize)> {
         // sequential part of C12
         "C12" => {
             if quick {
-                vec![("compact", 5), ("alloc", 5)]
+                vec![("compact", 5), ("alloc", 5), ("prefilled4c", 8), ("prefilled4cw", 4)]
             } else {
-                vec![("compact", 7), ("alloc", 7), ("full", 3)]
+                vec![("compact", 7), ("alloc", 7), ("full", 3), ("prefilled4c", 10), ("prefilled4cw", 6)]
             }
         }
         // refused requests in every reachable state
